@@ -1,12 +1,13 @@
 import AdfObdd.Drv.Common
 import AdfObdd.ServerModel
 import AdfObdd.ServerAdf
+import AdfObdd.ServerConcrete
 /-! protocol handler of the web-service family (C16/C17): `http …` requests are answered with the
     status, cookie event and canonical body computed by `ServerM.step`; `taskdone` applies the
     background-task events; `dbcheck`, `isolation`, `alone`, `result`, `graphcheck` are the monitors
     (`~ …` answers), evaluated from the data in the request line and the model's state. -/
 namespace Drv
-open ServerM ServerAdf
+open ServerM ServerAdf SrvC
 
 /-! ### text utilities -/
 
@@ -35,63 +36,17 @@ def fnv64 (s : String) : String :=
   let n := h.toNat
   String.ofList ((List.range 16).map (fun i => hexDigit (n / 16 ^ (15 - i) % 16)))
 
-def lookupS {α : Type} (k : String) : List (String × α) → Option α
-  | [] => none
-  | (a, b) :: r => if a == k then some b else lookupS k r
-
 /-! ### the instance of the model -/
 
-abbrev SHash := Nat × String
-abbrev SState := State String SHash SAdf SRes
-abbrev SResp := Resp String SRes
+/- `SHash`, `SState`, `SResp`, `Oracle`, `parseKey`, `stratName`, `solveKey`, `lookupS` and the
+   instance `mkEnv` itself live in `AdfObdd/ServerConcrete.lean` (namespace `SrvC`), shared with the
+   theorems of `Props/C16.lean`. -/
 
-/-- outcome classes reported by `taskdone … obs=` (opaque mode) or adopted tables (hybrid parsing) -/
-structure Oracle where
-  cls : List (String × Option Err) := []       -- key ↦ ok / error class
-  hyb : List (String × SAdf) := []             -- hybrid parse: the stored ADF as observed (validated by `~`)
-
-def parseKey (p : Parsing) (code : String) : String := (if p == .naive then "N|" else "H|") ++ code
-def stratName : Strategy → String
-  | .ground => "Ground" | .complete => "Complete" | .stable => "Stable"
-  | .stableCountingA => "StableCountingA" | .stableCountingB => "StableCountingB" | .stableNogood => "StableNogood"
 def stratKey : Strategy → String
   | .ground => "ground" | .complete => "complete" | .stable => "stable"
   | .stableCountingA => "stable_counting_a" | .stableCountingB => "stable_counting_b" | .stableNogood => "stable_nogood"
 def allStrategies : List Strategy := [.ground, .complete, .stable, .stableCountingA, .stableCountingB, .stableNogood]
 def parseStrategy (s : String) : Option Strategy := allStrategies.find? (fun x => stratName x == s)
-def solveKey (a : SAdf) (s : Strategy) : String := stratName s ++ "|" ++ a.key
-
-/-- the library as the model sees it.  `detail = false` (C17 runs): outcomes are opaque and taken from
-the oracle; `detail = true` (C16 runs): computed by the executable ADF models, except the node table of
-hybrid parsing, which is adopted from the implementation after the specification check. -/
-def mkEnv (detail : Bool) (o : Oracle) : Env String SHash SAdf SRes where
-  emp := ""
-  hash := fun salt pw => (salt, pw)
-  verify := fun h pw => h.2 == pw
-  parse := fun p code =>
-    if detail then
-      match p with
-      | .naive => parseNaive (parseKey p code) code
-      | .hybrid =>
-        match parseOutcome code with
-        | .error e => .error e
-        | .ok _ =>
-          match lookupS (parseKey p code) o.hyb with
-          | some a => .ok (a, [⟨a.ac, graphOf a.names a.nodes a.ac⟩])
-          | none => .error .panic
-    else
-      match lookupS (parseKey p code) o.cls with
-      | some none => .ok ({ key := parseKey p code }, [])
-      | some (some e) => .error e
-      | none => .error .timeout
-  solve := fun a s =>
-    if detail then solveAdf a s
-    else
-      match lookupS (solveKey a s) o.cls with
-      | some none => .ok []
-      | some (some e) => .error e
-      | none => .error .timeout
-
 /-! ### rendering -/
 
 def errName : Err → String
